@@ -184,7 +184,9 @@ func (r *readCommand) read(ctx context.Context, ltx lcontext.LContext,
 	for {
 		if aggregate != nil {
 			lines = make(chan *line.Line, 100)
+			vhook.At("mapr.register", r.server, path)
 			aggregate.NextLinesCh <- lines
+			vhook.At("mapr.registered", r.server, path)
 		}
 		if err := reader.Start(ctx, ltx, lines, re); err != nil {
 			dlog.Server.Error(r.server.user, path, globID, err)
